@@ -6,6 +6,22 @@ import os
 import re
 
 
+uniq_rx = re.compile("\x7fUNIQ-[a-z0-9]+-\\d+-[a-f0-9]+-QINU\x7f")
+
+
+def skip_markers(fun, txt):
+    """apply fun to the text between protection markers only, keep the markers as they are
+    (what MediaWiki's markerSkipCallback does for lc, uc, urlencode, anchorencode)"""
+    res = []
+    pos = 0
+    for matched in uniq_rx.finditer(txt):
+        res.append(fun(txt[pos : matched.start()]))
+        res.append(matched.group(0))
+        pos = matched.end()
+    res.append(fun(txt[pos:]))
+    return "".join(res)
+
+
 class Uniquifier:
     random_string = None
     regex_pattern = None
